@@ -89,7 +89,9 @@ class Cache:
             return creation_function()
 
         return self.impl.get_or_create(
-            key, creation_function, **self._get_cache_kw(kw, context)
+            key,
+            creation_function,
+            **self._get_cache_kw(kw, context, register=True),
         )
 
     def set(self, key, value, **kw):
@@ -162,7 +164,7 @@ class Cache:
 
         self.invalidate(name, __M_defname=name)
 
-    def _get_cache_kw(self, kw, context):
+    def _get_cache_kw(self, kw, context, register=False):
         defname = kw.pop("__M_defname", None)
         if not defname:
             tmpl_kw = self.template.cache_args.copy()
@@ -172,7 +174,9 @@ class Cache:
         else:
             tmpl_kw = self.template.cache_args.copy()
             tmpl_kw.update(kw)
-            self._def_regions[defname] = tmpl_kw
+            if register:
+                # only the def's own get_or_create knows its cache arguments
+                self._def_regions[defname] = tmpl_kw
         if context and self.impl.pass_context:
             tmpl_kw = tmpl_kw.copy()
             tmpl_kw.setdefault("context", context)
